@@ -19,6 +19,7 @@ _OUT = os.environ.get("VERIF_OUT") or ROOT
 EVIDENCE_DIR = os.path.join(_OUT, "evidence")
 REPLAY_DIR = os.path.join(_OUT, "replays")
 REPO = os.environ.get("VERIF_REPO") or "/repo"
+MAX_REPLAYS = 40
 KNOWN_FILE = os.path.join(ROOT, "known_findings.json")
 
 EXIT_OK, EXIT_VIOLATION, EXIT_INCONCLUSIVE = 0, 1, 2
@@ -141,7 +142,17 @@ class Report:
         known_by_id: Dict[Any, dict] = {}
         violations = []
         nonrepro = []
+        replayed_per_label: Dict[Any, int] = {}
+        skipped = 0
         for key, (harness, c, n) in seen.items():
+            # a change that breaks everything can produce thousands of distinct sites; replaying each (often in a subprocess) would
+            # take hours and adds nothing: at most MAX_REPLAYS per (harness, label), the rest is counted (inconclusive unless a
+            # violation was confirmed anyway)
+            k2 = (harness, c["label"])
+            if replayed_per_label.get(k2, 0) >= MAX_REPLAYS:
+                skipped += 1
+                continue
+            replayed_per_label[k2] = replayed_per_label.get(k2, 0) + 1
             try:
                 rep, detail = replay(harness, c)
             except Exception as e:  # noqa
@@ -160,6 +171,8 @@ class Report:
                 known_hits.setdefault(kid, []).append({"harness": harness, "cex": c, "paths": n, "detail": str(detail)[:500]})
             else:
                 violations.append({"harness": harness, "cex": c, "paths": n, "detail": str(detail)[:2000]})
+        if skipped:
+            self.add_inconclusive(f"{skipped} further counterexample sites were not replayed (cap of {MAX_REPLAYS} per harness and label)")
         for m in nonrepro:
             self.add_inconclusive("non-reproducing counterexample in %s (%s): %s" % (m["harness"], m["cex"]["label"], m["detail"][:300]))
         lines = []
